@@ -397,6 +397,9 @@ def run(ctx):
         # concrete states (one interval enclosure per DAG node), and the densities of the two formulations agree on a
         # stated sub-range (44 interval tiles, PropsT.v: theorems named _partial)
         extra = sorted(__import__('glob').glob(os.path.join(vf.COQDIR, 'C15', 'thorough', '*.v'))) if ctx.thorough else []
+        # coqchk (framework, thorough tier) re-checks Interval/Coquelicot for the Props files that import them and does not
+        # finish in the tier's budget: give it 7 minutes per library (a timeout is recorded, not a failure)
+        os.environ.setdefault('VERIF_COQCHK_TIMEOUT', '420')
         props = ('Props.v', 'PropsR.v', 'PropsS.v', 'Props2.v', 'Props3.v', 'Props4.v', 'Props5.v') + (('PropsT.v',) if ctx.thorough else ())
         ctx.coq_build(props=props, timeout=1700 if ctx.thorough else 600, extra_files=extra)
         ctx.log('coq build done: %d theorem(s)' % len([t for t in ctx.theorems if t[1] is not None]))
